@@ -4,8 +4,8 @@ from common import *
 import decl, gen, pktcases, pktprops
 
 PID = 'C08'
-TARGETS = ['Properties/C08.vo', 'Bridge/MoveBridge.vo', 'Bridge/CodegenBridge.vo', 'Bridge/RefBridge.vo', 'Bridge/PlumbingBridge.vo']
-KERNELS = ['G4_seq', 'G11_codegen', 'G16_ref', 'G16b_optional', 'G17_builder', 'G18_conditions']
+TARGETS = ['Properties/C08.vo', 'Bridge/MoveBridge.vo', 'Bridge/CodegenBridge.vo', 'Bridge/RefBridge.vo', 'Bridge/PlumbingBridge.vo', 'Bridge/ErrorsBridge.vo']
+KERNELS = ['G4_seq', 'G11_codegen', 'G16_ref', 'G16b_optional', 'G17_builder', 'G18_conditions', 'G9_errors']
 PROP_FILE = 'Properties/C08.v'
 
 
@@ -172,7 +172,7 @@ def pkt_end(table, v, cur, rawlen):
 
 def run(tier, seed, rng):
     ng = 70 if tier == 'quick' else 2500
-    feats = lambda g: dict(seq=True, opt=True, refsel=True, bits=(g % 3 == 0), move=(g % 4 == 0))
+    feats = lambda g: dict(seq=True, opt=True, refsel=True, bits=(g % 3 == 0), move=(g % 4 == 0), codegen_opts=(g % 3 == 1))   # a third of the tables mix generated and generic classes
     groups = pktprops.make_groups(rng, ng, feats, values_per_class=3 if tier == 'quick' else 5, offsets=(2,), maxcuts=8, flips=4, defaults=False)
     # counts in {-2..3} incl. negative ones: flip the count-bearing bytes (done by the byte flips) and add explicit constants
     records, disagreements = pktcases.run_groups(groups, 'c08')
